@@ -1612,6 +1612,15 @@ def judge_oma(ctx, L):
         ctx.counts['outside_model_domain'] += 1
         return
     i_ok, m_ok = L.impl[0] == 'ok', L.model[0] == 'ok'
+    if L.model[0] == 'taxerr':
+        # the species tree itself is refused (e.g. synthesised names of a unary node and its child coincide): this is
+        # C15/C18 territory, not a fault of the orthoXML
+        if i_ok:
+            ctx.violation('taxonomy layer (OMA mode): the model refuses the species tree (%s) and the implementation loads'
+                          % (L.model[1],), {'case': case_json(c), 'layer': 'taxonomy'}, no_input=True)
+        else:
+            ctx.counts['oma_tree_refused_by_both'] += 1
+        return
     if bad and i_ok:
         ctx.violation('OMA mode: species %r (%s) is accepted: the load succeeds' % bad[0],
                       {'case': case_json(c), 'fault': 'internal node as species (OMA mode)', 'species': bad})
